@@ -15,7 +15,7 @@ LABELSETS = {
     "plain": ["a", "b", "c"],
     "punct": ["a b", "a-b", "x(y)", "p,q", "a", "b"],
     "empty": ["", "a", "b", ""],
-    "padded": [" a", "b ", " c ", "\ta", "a", "b\n", "  "],
+    "padded": [" a", "b ", " c ", "\ta", "a", "b\n", "  ", "\xa0a", "b\u2003", "\r c", "a\x0b"],
     "unicode": ["é", "日本", "ß", "a", "ö-b"],
 }
 NAMES = ["a", "b", "c", "d"]
@@ -76,7 +76,8 @@ class G:
                 return self.pick([1e-7, 3e-7, 1e-9, 5e-324, 2.0 ** -40])
             return r.randrange(0, 129) / 8
         if self.regime == "grid":
-            return r.randrange(0, self.grid_max * GRID + 1) / GRID
+            v = r.randrange(0, self.grid_max * GRID + 1) / GRID
+            return -0.0 if (v == 0.0 and r.random() < 0.1) else v
         k = r.random()
         if k < 0.15:
             return float(r.randrange(0, 1001))
@@ -368,7 +369,7 @@ class G:
         """labels offered to insertEntry: occasionally padded even in unpadded runs"""
         lab = self.label()
         if self.cfg.get("pad_inserts", True) and self.chance(0.08):
-            lab = self.pick([" ", "\t", ""]) + lab + self.pick([" ", "\n", ""])
+            lab = self.pick([" ", "\t", "", "\xa0"]) + lab + self.pick([" ", "\n", "", "\u2003", "\r"])
         return lab
 
     def step_insert(self, world, h, mode=None, report=None, extra_pool=()):
